@@ -23,15 +23,6 @@ def record(chk, rule, f, obs, npaths, extra=""):
     return npaths
 
 
-def secp_inv_summary(it, f, args, kwargs, node):
-    a, n = args
-    if isinstance(a, FieldSym):
-        if it.truth(PolyCond(a.r, True), node):
-            return 0
-        return FieldSym(Rat(Poly.const(1)) / a.r, a.cls, True)
-    return NotImplemented
-
-
 def run(chk, repo, tier):
     chk.explanation = ("Each subject function is walked by the abstract evaluator with fully symbolic coordinates per "
                        "representation class (finite / identity); every control path's branch conditions become polynomial "
@@ -79,63 +70,9 @@ def run(chk, repo, tier):
         npaths += record(chk, "C13.R3", f, *check_function(w, lambda it, a, f=f: it.call_func(f, list(a), {}), rep, rep,
                                                            [("finite", "finite", "finite")], cases_line, "ratio", native_fields=False))
     # ---- secp256k1
-    it0 = Interp(w)
-    Pmod = it0.eval_global(repo.module(SECP), "P")
-    A = it0.eval_global(repo.module(SECP), "A")
-    cls = FieldSymClass(modulus=Pmod)
-    jac = Rep("jac", cls)
-    aff = Rep("affine", cls)
-    inv = repo.func(f"{SECP}.inv")
-    kw = dict(summaries={inv.qualname: secp_inv_summary})
-    unreduced = []
-
-    def call_of(f):
-        def c(it, a):
-            r = it.call_func(f, list(a), {})
-            for ev in it.events:
-                if ev["kind"] == "unreduced_compare":
-                    unreduced.append((f.qualname, ev["where"], ev["expr"]))
-            return r
-        return c
-    f = repo.func(f"{SECP}.jacobian_double")
-    npaths += record(chk, "C13.R4", f, *check_function(w, call_of(f), jac, jac, ONE, lambda X: _with_a(cases_double, A)(X), **kw))
-    f = repo.func(f"{SECP}.jacobian_add")
-    npaths += record(chk, "C13.R4", f, *check_function(w, call_of(f), jac, jac, TWO, cases_add, **kw))
-    f = repo.func(f"{SECP}.to_jacobian")
-    npaths += record(chk, "C13.R4", f, *check_function(w, call_of(f), aff, jac, [("finite",)], cases_normalize, **kw))
-    f = repo.func(f"{SECP}.from_jacobian")
-    npaths += record(chk, "C13.R4", f, *check_function(w, call_of(f), jac, aff, [("finite",)], cases_normalize, **kw))
-    # identity encodings: to_jacobian((0,0)) is an identity representative; from_jacobian(identity) == (0, 0)
-    it = Interp(w, summaries={inv.qualname: secp_inv_summary})
-    r = it.call_func(repo.func(f"{SECP}.to_jacobian"), [(0, 0)], {})
-    chk.ob("C13.R4", f"{SECP}.to_jacobian", "(0,0) ↦ identity class (0,0,*)", isinstance(r, tuple) and r[0] == 0 and r[1] == 0,
-           f"to_jacobian((0,0)) = {r!r}", repo.func(f"{SECP}.to_jacobian").where)
-    from ..ecalg import alg_paths, AlgState
-    z = FieldSym.var("z", cls)
-    fj = repo.func(f"{SECP}.from_jacobian")
-    ps = alg_paths(w, lambda it: it.call_func(fj, [(0, 0, z)], {}), AlgState(), **kw)
-    ok = all(p.outcome == "return" and _is00(p.value, p.alg) for p in ps)
-    chk.ob("C13.R4", fj.qualname, "identity (0,0,z) ↦ (0,0) for every z including 0", ok,
-           f"{len(ps)} paths: {[p.value for p in ps][:3]!r}", fj.where)
-    chk.ob("C13.R4", SECP, "integer ==/truth tests only on values reduced mod P", not unreduced,
-           "; ".join(f"{q}: {e} at {w_}" for q, w_, e in unreduced[:3]), "py_ecc/secp256k1/secp256k1.py")
+    from ..secp_model import secp_jacobian_obligations
+    npaths += secp_jacobian_obligations(chk, "C13.R4", repo, w)
     chk.note_analysed(paths=npaths, subject_functions=2 * 7 + 2 + 4)
-
-
-def _is00(v, st):
-    return isinstance(v, tuple) and len(v) == 2 and all(
-        (isinstance(c, int) and c == 0) or (isinstance(c, FieldSym) and st.is_zero(c.r) is True) for c in v)
-
-
-def _with_a(table, a):
-    from ..curvelaw import tangent
-
-    def t(X):
-        if X is None:
-            return [("2·O", [], ("inf",))]
-        x1, y1 = X
-        return [("y≠0 (tangent)", [(y1, "ne")], tangent(X, a)), ("y=0 (order 2)", [(y1, "eq")], ("inf",))]
-    return t
 
 
 MANIFEST = {
